@@ -102,6 +102,31 @@ Definition poly_func (r : list A) (rmin rmax : A) (c : list A) (r0 s : A) (reduc
   | Some p => func_span (p_c p) (p_imin p) (p_imax p) (p_r p)
   end.
 
+(* ---- one-sided Abel integral a(k), lines 190-207 (the values Dyr[p] and Dlnry
+   are parameters here; they need sqrt and ln, see model/AbelPoly.v) ---- *)
+(* C[2i] for given k: C[0] = 1/(k+1), C[k-m+2] = C[k-m]*m/(m-1), m = k - 2i *)
+Fixpoint Ccoef (k i : nat) : A :=
+  match i with
+  | O => div one (ofnat (k + 1))
+  | S i' => div (mul (Ccoef k i') (ofnat (k - 2 * i'))) (ofnat (k - 2 * i' - 1))
+  end.
+
+(* Horner in x2 = x^2; D p = Dyr[p]; dln = Dlnry.  n = remaining steps,
+   i = current index of C (C[2i]); the innermost (first computed) term carries
+   the logarithm for odd k. *)
+Fixpoint hor (k : nat) (od : bool) (x2 : A) (D : nat -> A) (dln : A) (n i : nat) : A :=
+  match n with
+  | O => add (mul (Ccoef k i) (D (k - 2 * i)%nat))
+             (if od then mul (mul (Ccoef k i) x2) dln else zero)
+  | S n' => add (mul (Ccoef k i) (D (k - 2 * i)%nat)) (mul x2 (hor k od x2 D dln n' (S i)))
+  end.
+Definition a_gen (k : nat) (x2 : A) (D : nat -> A) (dln : A) : A :=
+  hor k (Nat.odd k) x2 D dln (k / 2) 0.
+
+(* lines 219-226: sum_k c[k] * 2 * a(k) *)
+Fixpoint abel_sum (c : list A) (k0 : nat) (ak : nat -> A) : A :=
+  match c with [] => zero | a :: c' => add (mul (mul a (add one one)) (ak k0)) (abel_sum c' (S k0) ak) end.
+
 (* elementwise sum of equally long lists (PiecewisePolynomial: sum(p.func)) *)
 Fixpoint vadd (a b : list A) : list A :=
   match a, b with x :: a', y :: b' => add x y :: vadd a' b' | _, _ => [] end.
@@ -117,9 +142,28 @@ Arguments p_scale {A}. Arguments p_imin {A}. Arguments p_imax {A}.
 Definition Qeqb (a b : Q) : bool := Qeq_bool a b.
 Definition Qltb (a b : Q) : bool := negb (Qle_bool b a).
 
-Definition prepareQ := prepare Q 0%Q 1%Q Qplus Qmult Qdiv Qopp Qeqb Qltb.
-Definition poly_funcQ := poly_func Q 0%Q 1%Q Qplus Qmult Qdiv Qopp Qeqb Qltb.
-Definition pevalQ := peval Q 0%Q Qplus Qmult.
+(* the operations normalise their results (Qred) so that the size of the
+   numerals stays that of the exact value *)
+Definition Qadd' (a b : Q) : Q := Qred (a + b).
+Definition Qmul' (a b : Q) : Q := Qred (a * b).
+Definition Qdiv' (a b : Q) : Q := Qred (a / b).
+
+Definition prepareQ := prepare Q 0%Q 1%Q Qadd' Qmul' Qdiv' Qopp Qeqb Qltb.
+Definition poly_funcQ := poly_func Q 0%Q 1%Q Qadd' Qmul' Qdiv' Qopp Qeqb Qltb.
+Definition pevalQ := peval Q 0%Q Qadd' Qmul'.
+Definition a_genQ := a_gen Q 0%Q 1%Q Qadd' Qmul' Qdiv'.
+Definition abel_sumQ := abel_sum Q 0%Q 1%Q Qadd' Qmul'.
+Definition pwQ := pw Q 1%Q Qmul'.
+
+(* abel value = alpha*y_up + beta*y_lo + gamma*Dlnry with rational alpha, beta,
+   gamma (the model is linear in the three irrational quantities): the
+   coefficients, for prepared data and grid value x *)
+Definition abel_linQ (c : list Q) (sc x rmin rmax : Q) : Q * Q * Q :=
+  let cs := map (Qmul' sc) c in
+  let x2 := x * x in
+  (abel_sumQ cs 0 (fun k => a_genQ k x2 (fun p => pwQ rmax p) 0),
+   abel_sumQ cs 0 (fun k => a_genQ k x2 (fun p => - pwQ rmin p) 0),
+   abel_sumQ cs 0 (fun k => a_genQ k x2 (fun _ => 0) 1)).
 
 (* |x - y| <= tol, all three exact rationals *)
 Definition qwithin (tol x y : Q) : bool := Qle_bool (Qabs (x - y)) tol.
